@@ -283,12 +283,30 @@ def eval_in_snapshot(I, expr, snap, params):
         I.st.global_writes = dict(gw)
         for fr, e in zip(fn_frames, envs[len(envs) - len(fn_frames):]):
             fr.env = dict(e)
-        return I.eval(expr)
+        return detach(I, I.eval(expr))
     finally:
         I.st.heap = cur_heap
         I.st.global_writes = cur_gw
         for fr, e in saved_envs:
             fr.env = e
+
+
+def detach(I, v):
+    """Turn a reference into the snapshot heap into an immutable value (it is
+    dereferenced later, when the current heap is back in place)."""
+    if isinstance(v, Ref):
+        c = I.cell(v)
+        if isinstance(c, ListCell):
+            if c.items is not None:
+                return tuple(detach(I, x) for x in c.items)
+            return STup(c.t, c.ek)
+        if isinstance(c, BACell):
+            return SSeq(c.t, bytes)
+        if isinstance(c, ObjCell):
+            return SymObj(I.freeze_obj(v), c.cls)
+    if isinstance(v, tuple):
+        return tuple(detach(I, x) for x in v)
+    return v
 
 
 def quantifier(I, name, n):
